@@ -274,11 +274,14 @@ class TrioEventLoop(EventLoop):
         we cannot simply use a try..catch clause, we need a helper function like this.
         """
         self._idle_callbacks.clear()
-        self._idle_exc = None
+        idle_exc, self._idle_exc = self._idle_exc, None
         if isinstance(exc, BaseExceptionGroup) and len(exc.exceptions) == 1:
             exc = exc.exceptions[0]
 
         if isinstance(exc, ExitMainLoop):
+            if idle_exc is not None and not isinstance(idle_exc, ExitMainLoop):
+                # an idle callback failed before another callback ended the loop: its exception is not lost
+                raise idle_exc
             return
 
         raise exc.with_traceback(exc.__traceback__) from None
